@@ -180,6 +180,57 @@ class CellBase(Interp):
         finally:
             self.depth -= 1
 
+    def free_call(self, name, args):
+        """a free helper function of the file (generic over the cell type)"""
+        fns = [f["node"] for f in self.ast.find_fns(LIB) if f["container"] == "" and f["name"] == name and f["node"].get("body") is not None]
+        if len(fns) != 1:
+            return None
+        fn = fns[0]
+        ps = [p for p in fn["sig"]["inputs"] if p["t"] == "Arg"]
+        if len(ps) != len(args) or any(p["pat"]["t"] != "PIdent" for p in ps) or self.depth > 4:
+            raise Unanalysable(f"call of {name}")
+        env = Env()
+        for p, a in zip(ps, args):
+            env.bind(p["pat"]["name"], a)
+        self.depth += 1
+        try:
+            return (self.exec_block(fn["body"], env),)
+        except ReturnEx as r:
+            return (r.value,)
+        finally:
+            self.depth -= 1
+
+    def apply_closure(self, f, args):
+        env = f.env.child()
+        ins = f.node["inputs"]
+        if len(ins) != len(args):
+            raise Unanalysable("closure arity")
+        for p_, a_ in zip(ins, args):
+            if not self.match(p_, a_, env):
+                raise Unanalysable("closure parameter pattern")
+        try:
+            return self.eval(f.node["body"], env)
+        except ReturnEx as r:
+            return r.value
+
+    def option_method(self, recv, name, args):
+        """bool::then / then_some, Option::map / filter / and_then / unwrap_or: -> (value,) or None"""
+        from itereval import ClosureV
+        if isinstance(recv, Test):
+            recv = self.decide(recv)
+        if isinstance(recv, bool) and name == "then" and len(args) == 1 and isinstance(args[0], ClosureV):
+            return (Some(self.apply_closure(args[0], [])) if recv else NONE,)
+        if isinstance(recv, bool) and name == "then_some" and len(args) == 1:
+            return (Some(args[0]) if recv else NONE,)
+        if isinstance(recv, Opt):
+            if name == "map" and len(args) == 1 and isinstance(args[0], ClosureV):
+                return (Some(self.apply_closure(args[0], [recv.v])) if recv.some else NONE,)
+            if name == "and_then" and len(args) == 1 and isinstance(args[0], ClosureV):
+                return (self.apply_closure(args[0], [recv.v]) if recv.some else NONE,)
+            if name == "filter" and len(args) == 1 and isinstance(args[0], ClosureV):
+                return ((recv if self.decide(self.apply_closure(args[0], [recv.v])) else NONE) if recv.some else NONE,)
+        return None
+
     def cond(self, c, env):
         c = strip_paren(c)
         if c["t"] == "Binary" and c["op"] == "&&":
@@ -211,6 +262,16 @@ class CellBase(Interp):
         t = e["t"]
         if t == "Reference":
             return self.eval(e["expr"], env)
+        if t == "Closure":
+            from itereval import ClosureV
+            return ClosureV(e, env)
+        if t == "MethodCall" and e["method"] in ("then", "then_some", "map", "and_then", "filter"):
+            recv = self.eval(e["receiver"], env)
+            args = [self.eval(a, env) for a in e["args"]]
+            r = self.option_method(recv, e["method"], args)
+            if r is None:
+                raise Unanalysable(f".{e['method']}() on {recv!r}")
+            return r[0]
         if t == "Range":
             lo = self.eval(e["start"], env) if e.get("start") else 0
             hi = self.eval(e["end"], env)
@@ -346,6 +407,16 @@ class PowInterp(CellBase):
         if name == "trailing_zeros":
             return Top("trailing zeros")
         raise Unanalysable(f"method .{name}()")
+
+    def call(self, name, targs, args, node):
+        n = name.split("::")[-1]
+        if "::" not in name.split("::<")[0]:
+            r = self.free_call(name.split("::<")[0], args)
+            if r is not None:
+                return r[0]
+        if name.split("::<")[0] in ("Self::" + n, "C::" + n) and args:
+            return self.method(args[0], n, targs, args[1:], node)
+        raise Unanalysable(f"call {name}")
 
     def binary(self, op, l, r, node):
         if op in ("==", "!="):
@@ -666,6 +737,12 @@ class AdicInterp(CellBase):
         n = name.split("::")[-1]
         if n == "Some" and len(args) == 1:
             return Some(args[0])
+        if "::" not in name.split("::<")[0]:
+            r = self.free_call(name.split("::<")[0], args)
+            if r is not None:
+                return r[0]
+        if name.split("::<")[0] in ("Self::" + n, "C::" + n) and n in self.fns and args:
+            return self.method(args[0], n, targs, args[1:], node)       # Self::wrapping_mul(a, b)
         raise Unanalysable(f"call {name}")
 
     def path_value(self, name, node):
